@@ -390,6 +390,14 @@ def run(prog, check):
                  '(the NameError that orders the evaluation never fires)', 'a chain of decorative variables w = y, y = z listed in dependency-reversed order')
     check.ob('C03.R5', '%s::decoration-env-stores-present' % sw.f.key, bool(stores), sw.f.where,
              '%d store(s) of decorative values into the evaluation environment examined' % len(stores), '')
+    # a variable set aside by reduction keeps its initial condition: the k=0 constant passes of the solver do not
+    # overwrite variables that carry one (same rule as C10.R4, which is where the solver honours initial conditions)
+    from .C10 import k0_protection
+    from ..solver_model import solver_function
+    from ..inline import flatten as _flatten
+    icf = _flatten(prog, solver_function(prog, 'initial_conditions'))
+    check.saw(icf)
+    k0_protection(check, icf, cfgmod.build(icf), rule='C03.R5')
     check.floor('C03.R5', 2)
     check.floor('C03.R1', 5)
     check.floor('C03.R2', 8)
